@@ -25,6 +25,8 @@ func RunAny(in Sx) (Sx, []string) {
 		return RunBurst(in)
 	case 4:
 		return RunServer(in)
+	case 5:
+		return RunRelay(in)
 	}
 	return Run(CfgOfSx(in))
 }
@@ -76,6 +78,8 @@ func crashObservation(in Sx) Sx {
 		return Ints(0, 1, 0, 0, 0, 0, 0, 0)
 	case 4:
 		return List(ListOf(nil), Ints(0, 0, 1, 0))
+	case 5:
+		return List(ListOf(nil), ListOf(nil), ListOf(nil), ListOf(nil), Ints(0, 0, 1, 0))
 	}
 	// connection scenario: nothing observed except that the process died (panics = 1)
 	return List(e, e, e, e, e, Ints(0, 0, 0, 0), Ints(0, 0, 0, 0), e, Ints(0, 0), Ints(0, 0), e, Ints(1, 0, 0), Ints(0, 0, 0), e)
@@ -90,6 +94,8 @@ func timeoutObservation(in Sx) Sx {
 		return Ints(0, 0, 0, 0, 0, 0, 1, 0)
 	case 4:
 		return List(ListOf(nil), Ints(0, 0, 0, 1))
+	case 5:
+		return List(ListOf(nil), ListOf(nil), ListOf(nil), ListOf(nil), Ints(0, 0, 0, 1))
 	}
 	return List(e, e, e, e, e, Ints(0, 0, 0, 0), Ints(0, 0, 0, 0), e, Ints(0, 0), Ints(0, 0), e, Ints(0, 0, 0), Ints(1, 0, 0), e)
 }
